@@ -15,12 +15,13 @@ Variable kids : xml -> list kid.
 Variable mime : bytes -> mtype.
 Variable mime_bytes : mtype -> bytes.
 Variable rdf0 : bytes.
-Variable mask : xml -> xml.
+Variable proj : Type.
+Variable mask : xml -> proj.
 Hypothesis par_ser : forall x, par (ser x) = x.
 Notation document := (document xml bytes).
 Notation fsys := (fsys bytes kid).
 Notation SInv := (SInv xml bytes kid).
-Notation view := (view xml bytes kid par mask).
+Notation view := (view xml bytes kid par proj mask).
 Notation run := (run xml bytes kid ser par pretty stamp entries with_entries kids mime mime_bytes rdf0 FIXED).
 Notation d_save := (d_save xml bytes kid ser par pretty stamp entries kids mime rdf0 FIXED).
 Notation d_clone := (d_clone xml bytes kid ser par FIXED).
@@ -33,7 +34,7 @@ Theorem roundtrip_reachable : forall (s0 : fsys * document) os, SInv s0 ->
 Proof.
   intros s0 os I t pk pty fs' d' c Hpk Hm Hs Ho n.
   pose proof (run_inv xml bytes kid ser par pretty stamp entries with_entries kids mime mime_bytes rdf0 par_ser os s0 I) as [F W].
-  apply (roundtrip xml bytes kid ser par pretty stamp entries kids mime rdf0 mask par_ser _ _ t pk pty fs' d' c W Hpk Hm Hs Ho).
+  apply (roundtrip xml bytes kid ser par pretty stamp entries kids mime rdf0 proj mask par_ser _ _ t pk pty fs' d' c W Hpk Hm Hs Ho).
 Qed.
 
 Theorem save_pure_reachable : forall (s0 : fsys * document) os, SInv s0 -> (forall x, mask (stamp x) = mask x) ->
@@ -42,7 +43,7 @@ Theorem save_pure_reachable : forall (s0 : fsys * document) os, SInv s0 -> (fora
 Proof.
   intros s0 os I Hst t pk pty fs' d' Hs n Hn.
   pose proof (run_inv xml bytes kid ser par pretty stamp entries with_entries kids mime mime_bytes rdf0 par_ser os s0 I) as [F W].
-  apply (save_pure xml bytes kid ser par pretty stamp entries kids mime rdf0 mask Hst _ _ t pk pty fs' d' W Hs n Hn).
+  apply (save_pure xml bytes kid ser par pretty stamp entries kids mime rdf0 proj mask Hst _ _ t pk pty fs' d' W Hs n Hn).
 Qed.
 
 Theorem clone_equal_at_birth_reachable : forall (s0 : fsys * document) os, SInv s0 ->
@@ -51,6 +52,6 @@ Theorem clone_equal_at_birth_reachable : forall (s0 : fsys * document) os, SInv 
 Proof.
   intros s0 os I.
   pose proof (run_inv xml bytes kid ser par pretty stamp entries with_entries kids mime mime_bytes rdf0 par_ser os s0 I) as [F W].
-  apply (clone_equal_at_birth xml bytes kid ser par mask par_ser _ _ F W).
+  apply (clone_equal_at_birth xml bytes kid ser par proj mask par_ser _ _ F W).
 Qed.
 End H.
